@@ -7,6 +7,7 @@ import (
 	"fmt"
 	"os"
 	"path/filepath"
+	"regexp"
 	"sort"
 	"strconv"
 	"strings"
@@ -184,6 +185,7 @@ type Options struct {
 	Patterns []string // goderive package patterns (default ./p)
 	Args     []string // goderive flags
 	Timeout  time.Duration
+	RejectOK bool // do not treat a rejected subject as a violation
 	// Post runs after a harness run without violations, before the case directory is removed;
 	// rerun executes the same harness binary again (same seed) with extra environment.
 	Post func(dir string, rerun func(extraEnv []string) gorun.Result)
@@ -213,7 +215,8 @@ func RunCase(c *pkit.Ctx, rt *rapid.T, s *Subject, o Options) *Outcome {
 	if res.Exit != 0 {
 		out.GenFailed = "goderive exit " + strconv.Itoa(res.Exit) + ": " + pkit.FirstLines(res.Stderr, 3)
 		c.Rep.Class("subject-rejected:goderive")
-		c.Rep.Note("subject rejected by goderive (C01/C09 matter): %s", pkit.Trunc(out.GenFailed, 300))
+		c.Rep.Note("subject rejected by goderive: %s", pkit.Trunc(out.GenFailed, 300))
+		rejected(c, rt, o, files, "goderive-exit", out.GenFailed)
 		return out
 	}
 	gobin := gorun.Go
@@ -230,7 +233,8 @@ func RunCase(c *pkit.Ctx, rt *rapid.T, s *Subject, o Options) *Outcome {
 		if strings.Contains(b.Stderr, "derived.gen.go") && !strings.Contains(b.Stderr, "h/") {
 			out.GenFailed = "derived.gen.go does not compile: " + pkit.FirstLines(b.Stderr, 4)
 			c.Rep.Class("subject-rejected:compile")
-			c.Rep.Note("generated code does not compile (C01 matter): %s", pkit.Trunc(out.GenFailed, 400))
+			c.Rep.Note("generated code does not compile: %s", pkit.Trunc(out.GenFailed, 400))
+			rejected(c, rt, o, files, "does-not-compile", out.GenFailed)
 			return out
 		}
 		c.Rep.Inconcl("harness build failed: %s", pkit.Trunc(b.Stderr, 1500))
@@ -293,6 +297,37 @@ func RunCase(c *pkit.Ctx, rt *rapid.T, s *Subject, o Options) *Outcome {
 			map[string]any{"entry": entry, "harness": o.Harness, "harness_seed": strconv.FormatUint(seed, 10), "checks": o.Checks, "go126": o.Go126, "race": o.Race})
 	}
 	return out
+}
+
+var reDigits = regexp.MustCompile(`[0-9]+`)
+var rePosn = regexp.MustCompile(`[a-zA-Z0-9_/.\-]+\.go:\d+:\d+:?\s*`)
+
+// rejected reports a subject that lies inside the property's domain (every generator only draws
+// supported forms) but for which goderive fails or emits code that does not compile: the derived
+// function the property talks about cannot even be called.
+func rejected(c *pkit.Ctx, rt *rapid.T, o Options, files map[string]string, kind, detail string) {
+	if o.RejectOK {
+		return
+	}
+	lines := strings.Split(detail, "\n")
+	cls := lines[0]
+	for _, l := range lines {
+		if strings.Contains(l, ".go:") {
+			cls = l
+			break
+		}
+	}
+	cls = rePosn.ReplaceAllString(cls, "")
+	cls = reDigits.ReplaceAllString(cls, "N")
+	keep := map[string]string{}
+	for k, val := range files {
+		if strings.HasPrefix(k, "vref/") || strings.HasPrefix(k, "vrep/") || k == "go.sum" || strings.HasPrefix(k, "h/") {
+			continue
+		}
+		keep[k] = val
+	}
+	c.Fail(rt, map[string]string{"check": "generation", "kind": kind, "class": pkit.Trunc(strings.TrimSpace(cls), 140)},
+		"a subject package drawn from the supported forms was rejected: "+detail, keep, map[string]any{"harness": o.Harness})
 }
 
 func tailStr(s string, n int) string {
